@@ -177,7 +177,15 @@ JudgeCount(e) ==
                 [] e.dist = "uniform" -> UniformCount(e.n)
                 [] OTHER -> e.n
   IN IF e.npts = want THEN {} ELSE {"documented_samples"}
+\* The OPD map is the sampled quantity: at a grid node that coincides with a documented pupil
+\* sample the map value is that sample's OPD (times its intensity, as the map is built), whatever
+\* interpolation fills the nodes in between.  e.zs: map values at such nodes, e.os: the samples.
+JudgeMap(e) ==
+  IF Len(e.zs) # Len(e.os) \/ ~AllFin(e.zs) \/ ~AllFin(e.os) THEN {"map_value"}
+  ELSE LET slack == DShift(DAdd(DOne, SumAbs(e.os)), -30) IN
+       IF \A k \in 1..Len(e.zs) : DLe(DAbs(DSub(e.zs[k], e.os[k])), slack) THEN {} ELSE {"map_value"}
 Judge(e) == CASE e.kind = "count" -> JudgeCount(e)
+              [] e.kind = "map" -> JudgeMap(e)
               [] e.kind = "ray" -> JudgeSample(e)
               [] e.kind = "rms" -> JudgeRms(e)
               [] e.kind = "opdiff" -> JudgeOpdiff(e)
